@@ -48,6 +48,17 @@ theorem pcAfter_others (env : Env) (n : Node) (r r' : Resolver) (pc pc' : Addres
     | ok v =>
       simp only [hv, Except.ok.injEq, Prod.mk.injEq] at h
       rw [← h.1]; exact addSymbol_others r name v k hk
+  | argSymbol name e =>
+    unfold pcAfter at h
+    cases hp : r.cur.parent with
+    | none => simp [hp] at h
+    | some par =>
+      simp only [hp] at h
+      cases hv : evalP env { r with current := par } e with
+      | error er => simp [hv] at h
+      | ok v =>
+        simp only [hv, Except.ok.injEq, Prod.mk.injEq] at h
+        rw [← h.1]; exact addSymbol_others r name v k hk
   | symbolConst name v =>
     simp only [pcAfter, Except.ok.injEq, Prod.mk.injEq] at h
     rw [← h.1]; exact addSymbol_others r name v k hk
